@@ -395,3 +395,12 @@ Example old_escape_broken :
   clex_string (c_literal_old [97; 10; 98]) = None /\
   clex_string (c_literal_old [97; 92; 10; 98]) = Some ([97; 8], []).
 Proof. vm_compute. split; reflexivity. Qed.
+
+(* ============================================================ the expression printer of C01 uses the same function *)
+From RV Require Lang.CAst.
+
+Lemma cast_escape_same s : CAst.escape s = escape s.
+Proof.
+  unfold CAst.escape, escape. induction s as [|c s IH]; [reflexivity|].
+  cbn [flat_map]. rewrite IH. f_equal.
+Qed.
